@@ -98,6 +98,8 @@ class FixedPredictor:
             return pd.Series(self.vec)
         if self.container == "col":
             return self.vec.reshape(-1, 1)
+        if self.container == "same_array":
+            return self.vec  # a predictor that hands out its own stored score array, every time the same object
         return self.vec.copy()
 
 
